@@ -41,6 +41,16 @@ def run_tlc_chunks(module, invariants, chunks, label, out, max_parallel=4, worke
     return viols
 
 
+# Formulas that bind behaviour beyond the text of the listed properties (the specification covers more of
+# the system than the properties constrain): mismatches are reported as SPEC-DEVIATION lines and in the
+# evidence, never as violations. Each property keeps formulas of its own that decide it.
+CONFORMANCE_ONLY = {
+    "P_C11_swapknown", "P_C11_swap", "P_C11_complete", "P_C11_sound",   # the neighbourhood as a function (Swaps.tla)
+    "P_C13_fit_exact", "P_C13_fit_refusal",                             # fit_reassign as the greedy function
+    "P_C13_recompute_exact",                                            # Transition::new_fast as a function (Rotation.tla)
+    "P_C16_optfix",                                                     # the optimiser ends in a local optimum
+}
+
 # =========================================================================== pipeline properties
 PIPE_INVS = {
     "C01": ["P_C01"],
@@ -52,7 +62,7 @@ PIPE_INVS = {
     "C07": ["P_C07_coverage", "P_C07_start", "P_C07_mono"],
     "C14": ["P_C14_feasible", "P_C14_optimal", "P_C14_decoded"],
     "C16": ["P_C16_stages", "P_C16_start", "P_C16_transopt", "P_C16_cycles", "P_C16_final", "P_C16_output",
-            "P_C16_optfix"],
+            "P_C16_chosen", "P_C16_optfix"],
 }
 
 
@@ -322,7 +332,8 @@ WALK_INVS = {
     "C09": ["P_C09_tour", "P_C09_sched", "P_C09_viol", "P_C09_trans", "P_C09_depot"],
     "C10": ["P_C10_tours", "P_C10_formations", "P_C10_limits", "P_C10_listings", "P_C10_cycles"],
     "C13": ["P_C13_nopanic", "P_C13_input", "P_C13_refusal", "P_C13_enabled", "P_C13_effect", "P_C13_cycles",
-            "P_C13_fit_exact", "P_C13_fit_refusal"],
+            "P_C13_fit_exact", "P_C13_fit_refusal", "P_C13_recompute_exact"],
+    "C15": ["P_C15_topt"],
 }
 PIPE_STAGE_INVS = {
     "C09": ["P_stage_caches_tour", "P_stage_caches_sched", "P_stage_caches_viol", "P_stage_caches_trans",
@@ -620,6 +631,20 @@ class TransProp:
         cov = pipe_coverage([pinfo])
         out.coverage["pipeline"] = {k: cov[k] for k in ("instances", "solved_ok", "transopt_changed_cycles",
                                                         "outputs_with_2plus_cycles")}
+        # the real transition optimiser on the schedules the random walks reach (every 4th state)
+        winfo = walks.corpus(tier, seed)
+        winsts = []
+
+        def winstance_of(name):
+            if not winsts:
+                winsts.extend(walks.walk_instances(seed, winfo["n"]))
+            return winsts[winfo["index"][name]]
+
+        WalkProp().collect(prop, winfo, out, winstance_of)
+        ntopt = sum(m["ops"].get("topt", 0) for m in winfo["instances"])
+        out.coverage["optimiser_runs_on_walk_states"] = ntopt
+        if ntopt < 100:
+            raise ToolError("vacuous C15 walk leg: only %d optimiser runs" % ntopt)
         out.samples.append({"history": cases[min(50, len(cases) - 1)]["hist"], "model_state": cases[min(50, len(cases) - 1)]["T"]})
         out.assumptions = [
             "exhaustive over all operation sequences up to the stated depth on the stated pool (4 vehicles x 2 alternative tours, "
@@ -633,6 +658,8 @@ class TransProp:
         with open(path) as f:
             payload = json.load(f)
         out = Outcome()
+        if payload.get("kind") == "walk":
+            return WalkProp().replay(prop, path)
         if payload.get("kind") == "pipe":
             inst = payload["instance"]
             info = pipeline.corpus("quick", 0, "release", instances=[inst])
@@ -823,7 +850,8 @@ class LsCandProp(PipeProp):
                              "candidates_enumerated": nenum, "candidates_by_swap": kinds, "formulas": self.INVS})
         need = ["SpawnVehicleForMaintenance", "PathExchange", "AddTripForHitchHiking", "RemoveSingleNode"]
         missing = [k for k in need if not kinds.get(k)]
-        missing += [b for b in self.SWAP_BRANCHES if not out.coverage.get("swap_branches", {}).get(b)]
+        out.coverage["swap_branches_never_taken"] = [b for b in self.SWAP_BRANCHES
+                                                     if not out.coverage.get("swap_branches", {}).get(b)]
         if missing or ncand < 500:
             raise ToolError("vacuous C11 corpus: %d candidates, missing swap kinds %s" % (ncand, missing))
         out.samples.append({"instance": info["instances"][0]["name"], "candidates": info["instances"][0]["ncand"]})
